@@ -94,3 +94,8 @@ claim("C08",
       "Necessary conditions on every path/schedule: one key derivation (scrubbed ID string) for every index access; the part file is stored successfully before the index entry is written and is removed before it; collecting a fragment (query, append part, update) and insert-if-absent are one exclusive region and every other index write holds the same mutex; the sweep visits all expired items. Crash-point behaviour and map-equivalence over histories are explicitly NOT decided.",
       "Not decided: equivalence with a reference map over histories; state after a kill at an arbitrary instruction; badger/badgerhold internals; fsync of part files.",
       "DESIGN.md §3 C08")
+claim("C04",
+      "taint-to-allocation rule (wire-read sources to make() sinks with narrow-type / dominating-bound sanitisers) over every make() of the repository, frozen single-writer origin chain for the peer-declared segment size with bound checks at the origin, call-graph reachability of panic instructions from all decoder entry points (dead defaults discharged by path enumeration), loop-termination obligations for decoder loops",
+      "For all inputs: no allocation in the repository is sized by a wire value without a narrow type or a dominating bound (allocations that grow with arrived data are the accepted idioms); the negotiated segment size reaches the sender's buffer only through a checked chain and is bounded to [1, cap] at its origin; no explicit panic of the repository or cboring is reachable from any decoder entry point; every decoder loop is bounded by in-memory data or consumes input.",
+      "Not decided: panics inside third-party libraries (xz, gorilla, badger, reflect), nil dereference and index panics in general, slow-but-finite inputs, allocation behaviour inside cboring (one table entry).",
+      "DESIGN.md §3 C04")
